@@ -77,19 +77,31 @@ def regular_with_dead(rng, k, d):
     return rows
 
 
+F12_ROWS = [[-1, -1, -1, 3], [-1, -1, -1, -1], [-1, -1, -1, -1], [-1, 13, -1, 15], [-1, -1, 2, -1], [-1, -1, -1, -1], [-1, -1, -1, -1],
+            [-1, -1, -1, 15], [0, -1, -1, 3], [-1, -1, -1, -1], [-1, -1, -1, -1], [-1, -1, -1, -1], [-1, 1, 2, -1], [4, -1, -1, 7],
+            [8, -1, -1, -1], [-1, -1, 14, -1]]
+
+
 def payloads(rng, tier):
     n = {"quick": 140, "thorough": 2500, "search": 80}[tier]
     kmax = {"quick": 3, "thorough": 4, "search": 2}[tier]
     # the recorded finding F9 (deterministic single start stops when its first two estimates coincide), on every run
     yield "capacity", {"rows": gen.induced(2, [0, 1, 1, 1, 1, 1, 0, 0, 1, 0, 0, 0, 0, 0, 0, 0]), "repeats": 1, "seed": 1,
                        "tol": -10, "maxit": 500, "kind": "coding"}
+    # the recorded finding F12 (random start: the largest entry sits in a chain of single-successor vertices outside the cyclic part,
+    # the estimate is exactly 1.0 twice in a row and the tolerance test stops the repeat), on every run
+    yield "capacity", {"rows": F12_ROWS, "repeats": 3, "seed": 1472, "tol": -10, "maxit": 500, "kind": "subset"}
     yield "capacity", {"rows": [[-1] * 4] * 4, "repeats": 1, "seed": 1, "tol": -10, "maxit": 500, "kind": "arcless"}
     yield "capacity", {"rows": [[-1] * 4] * 16, "repeats": 3, "seed": 1, "tol": -10, "maxit": 500, "kind": "arcless"}
     for _ in range(n):
         k = rng.randint(1, kmax)
-        kind = rng.choice(["subset", "subset", "coding", "coding", "regular", "complete", "fullrows", "induced", "regdead", "regdead"])
+        kind = rng.choice(["subset", "subset", "sparse", "coding", "coding", "regular", "complete", "fullrows", "induced", "regdead", "regdead"])
         if kind == "subset":
             rows = gen.arc_subset(rng, k, keep=rng.choice([0.3, 0.5, 0.7, 0.9]))
+        elif kind == "sparse":
+            # few arcs: a small cyclic part with chains of single-successor vertices leading into / out of it
+            k = max(k, 2)
+            rows = gen.arc_subset(rng, k, keep=rng.choice([0.2, 0.3, 0.4]))
         elif kind == "coding":
             rows = gen.coding_graph(rng, k)[2]
         elif kind == "fullrows":
@@ -105,7 +117,8 @@ def payloads(rng, tier):
             rows = regular_with_dead(rng, k, rng.randint(1, 3))
         else:
             rows = gen.complete(k)
-        yield "capacity", {"rows": rows, "repeats": 1 if kind == "regdead" and rng.random() < 0.8 else rng.choice([1, 1, 2, 2, 3, 6]),
+        yield "capacity", {"rows": rows, "repeats": 1 if kind == "regdead" and rng.random() < 0.8 else
+                           (rng.choice([2, 3, 3, 6]) if kind == "sparse" else rng.choice([1, 1, 2, 2, 3, 6])),
                            "seed": rng.randrange(1 << 30),
                            "tol": rng.choice([-10, -10, -10, -6, -3]), "maxit": rng.choice([500, 500, 500, 2, 5, 20]),
                            "kind": kind}
@@ -230,9 +243,20 @@ def build(stream, p):
                 # the deterministic run ended through the tolerance test (not the iteration cap): the stopping rule fired on
                 # two (nearly) coinciding consecutive estimates before the vector had converged
                 early = repeats == 1 and 2 <= len(rec0) <= maxit
-                return ("capacity %r is not within 1e-4 of the certified log2 spectral radius bracket [%r, %r] (repeats=%d%s)"
+                # a random start whose repeat ended through the tolerance test on two IDENTICAL consecutive estimates that are
+                # themselves outside the bracket: the estimate stagnated before the vector had converged
+                stalled = 0
+                if repeats > 1:
+                    for one in raw[1]:
+                        one = [float(x) for x in one]
+                        if 2 <= len(one) <= maxit and one[-1] == one[-2] \
+                                and not (cert["lo"] - 1e-4 - 1e-9 <= one[-1] <= cert["hi"] + 1e-4 + 1e-9):
+                            stalled += 1
+                return ("capacity %r is not within 1e-4 of the certified log2 spectral radius bracket [%r, %r] (repeats=%d%s%s)"
                         % (cap, cert["lo"], cert["hi"], repeats,
-                           "; single start stopped by the tolerance test after %d estimates" % len(rec0) if early else ""))
+                           "; single start stopped by the tolerance test after %d estimates" % len(rec0) if early else "",
+                           "; random start: %d of %d repeats stopped by the tolerance test on two identical consecutive estimates"
+                           % (stalled, repeats) if stalled else ""))
         return None
     branching = any(sum(1 for x in r if x >= 0) >= 2 for r in rows)
     return Case(stream, p, call, impl, oracle, domain=True, nontrivial=branching,
@@ -240,6 +264,9 @@ def build(stream, p):
 
 
 def known_match(finding, stream, payload, why):
+    if finding["id"] == "F12":
+        return (payload["repeats"] >= 2 and "certified log2 spectral radius bracket" in why
+                and "repeats stopped by the tolerance test on two identical consecutive estimates" in why)
     return (finding["id"] == "F9" and payload["repeats"] == 1 and "certified log2 spectral radius bracket" in why
             and "single start stopped by the tolerance test" in why)
 
